@@ -168,6 +168,25 @@ pub async fn run_c11(w: &mut World, m: &mut Mon, r: &mut R, t: &Twin, max_len: u
             }
         }
     }
+    // directed: the account is driven under water inside its own bracket and somebody tries to
+    // liquidate it (classic liquidation, then the bankruptcy handler) before the borrower repairs it
+    // and closes the bracket - both are impossible while the flag is set
+    for mid in [17usize, 18] {
+        for amt_sym in [8usize, 9] {
+            for shape in [vec![0usize, amt_sym, mid, 10, 6], vec![0, amt_sym, mid, mid, 10, 6], vec![0, amt_sym, 14, mid, 10, 6]] {
+                let (ixs, _) = run_shape(w, m, &shape);
+                let o = w.probe(m, &ixs, &signers).await;
+                shapes_run += 1;
+                m.r.eval();
+                m.r.count("C11.directed_shapes");
+                m.r.count(if o.ok() { "C11.directed_liquidation_inside_bracket_accepted" } else { "C11.directed_liquidation_inside_bracket_rejected" });
+                m.r.distinct(&("c11-directed", "liquidation-inside", mid == 17, amt_sym == 8, shape.len() == 6, o.ok()));
+                if o.ok() {
+                    accepted += 1;
+                }
+            }
+        }
+    }
     m.r.add("C11.shapes_executed", shapes_run);
     m.r.add("C11.shapes_accepted", accepted);
     m.r.note(&format!("C11 alphabet: {:?}; exhaustive up to length {}, random up to {}", C11_SYMS, exhaustive_len, max_len));
